@@ -87,11 +87,10 @@ def replay_instances(thorough):
         out += [
             ("obs2", C(pool=("Lpriv",), init=("Lun",), natk=("Lun",), natc=("-", "Npub", "Npriv"), obsk=("Lun", "Ri1", "Ri2"),
                        obsc=("e", "b", "d"), env=3), 100000),
-            ("relay2", C(pool=("Lpub",), relay=REL, reach=RCH, fm=("id", "add"), obsk=("Lpriv",), obsc=("e", "a"), env=4), 100000),
-            ("trk2", C(pool=("Lpub",), init=("Lun",), natk=("Lun",), natc=("-", "Npub"), obsk=("Ri1",), obsc=("e", "a"),
-                       relay=(("Rel1",),), tracker=True, env=3, t=3, hour=2), 100000),
+            ("relay2", C(pool=("Lpub",), relay=REL, reach=RCH, fm=("id", "add"), obsk=("Lpriv",), obsc=("e", "a"), env=3, notify=2), 100000),
+            ("trk2", C(init=("Lun",), natk=("Lun",), natc=("-", "Npub"), relay=(("Rel1",),), tracker=True, env=3, t=2, hour=1), 100000),
             ("split2", C(init=("Lpriv", "Lpub"), natk=("Lpub",), natc=("-", "Npub"), obsk=("Lpriv", "Lpub"), obsc=("e", "c"),
-                         relay=(("Rel1",),), reach=("private",), split=True, close=1, env=3), 100000),
+                         relay=(("Rel1",),), reach=("private",), split=True, close=1, env=2), 100000),
             ("life2", C(pool=("Lun",), obsk=("Lpriv",), obsc=("e", "a"), relay=(("Rel1",), ()), reach=("private", "public"), tracker=False,
                         first=False, close=1, env=3, notify=2), 100000),
         ]
